@@ -6,6 +6,7 @@
 #include <stdint.h>
 #include <stdlib.h>
 #include <sys/types.h>
+#include <stdio.h>
 
 static uint64_t splitmix64(uint64_t *s) {
     uint64_t z = (*s += 0x9E3779B97F4A7C15ULL);
@@ -27,4 +28,206 @@ ssize_t getrandom(void *buf, size_t len, unsigned int flags) {
         for (int j = 0; j < 8 && i < len; j++, i++) p[i] = (unsigned char)(v >> (8 * j));
     }
     return (ssize_t)len;
+}
+
+/* ---------------------------------------------------------------------------------------
+ * Seam S: system-call faults for the real child process (C19). Inactive unless the
+ * environment variable VERIF_IO_PLAN is set. The plan is a list of `key=value` items
+ * separated by ','; every decision is a counter comparison, so one plan is one exactly
+ * repeatable behaviour (the child is single-threaded on its I/O path):
+ *   root=<dir>        only descriptors whose path is under <dir> (and fd 1 for writes) are touched
+ *   short_write=<n>   a write transfers at most n bytes                     (legal kernel behaviour)
+ *   short_read=<n>    a read transfers at most n bytes                      (legal kernel behaviour)
+ *   eintr=<k>         every k-th eligible read / write fails with EINTR before doing anything (k >= 2)
+ *   enospc_after=<b>  after b bytes the device is full: the write that crosses b is cut short,
+ *                     every later one fails with ENOSPC
+ *   eio_read=<k>      the k-th eligible read (1-based) and every later one on that descriptor's
+ *                     file fail with EIO (a bad sector)
+ *   open_fail=<k>     the k-th open (1-based) of a path under root for reading fails with EACCES
+ *   report=<file>     each fault that *fires* appends one line `<kind>` to <file> (not under root)
+ * stderr (fd 2) is never touched.
+ * ------------------------------------------------------------------------------------- */
+#include <errno.h>
+#include <fcntl.h>
+#include <stdarg.h>
+#include <string.h>
+#include <sys/syscall.h>
+#include <unistd.h>
+
+static struct {
+    int init, active;
+    char root[512];
+    size_t rootlen;
+    char report[512];
+    long short_write, short_read, eintr, enospc_after, eio_read, open_fail;
+    long rw_calls, wbytes, reads, opens;
+    int last_eintr;
+    unsigned long fired_mask;
+} P;
+
+static long plan_num(const char *plan, const char *key) {
+    size_t kl = strlen(key);
+    const char *p = plan;
+    while (p && *p) {
+        if (!strncmp(p, key, kl) && p[kl] == '=') return strtol(p + kl + 1, NULL, 10);
+        p = strchr(p, ',');
+        if (p) p++;
+    }
+    return -1;
+}
+
+static void plan_str(const char *plan, const char *key, char *out, size_t cap) {
+    size_t kl = strlen(key);
+    const char *p = plan;
+    out[0] = 0;
+    while (p && *p) {
+        if (!strncmp(p, key, kl) && p[kl] == '=') {
+            const char *v = p + kl + 1;
+            const char *e = strchr(v, ',');
+            size_t n = e ? (size_t)(e - v) : strlen(v);
+            if (n >= cap) n = cap - 1;
+            memcpy(out, v, n);
+            out[n] = 0;
+            return;
+        }
+        p = strchr(p, ',');
+        if (p) p++;
+    }
+}
+
+static void plan_init(void) {
+    if (P.init) return;
+    P.init = 1;
+    const char *plan = getenv("VERIF_IO_PLAN");
+    if (!plan || !*plan) return;
+    plan_str(plan, "root", P.root, sizeof P.root);
+    P.rootlen = strlen(P.root);
+    plan_str(plan, "report", P.report, sizeof P.report);
+    P.short_write = plan_num(plan, "short_write");
+    P.short_read = plan_num(plan, "short_read");
+    P.eintr = plan_num(plan, "eintr");
+    P.enospc_after = plan_num(plan, "enospc_after");
+    P.eio_read = plan_num(plan, "eio_read");
+    P.open_fail = plan_num(plan, "open_fail");
+    P.active = P.rootlen > 0;
+}
+
+static void fired(int bit, const char *kind) {
+    if (P.fired_mask & (1ul << bit)) return; /* one line per kind */
+    P.fired_mask |= 1ul << bit;
+    if (!P.report[0]) return;
+    long fd = syscall(SYS_openat, AT_FDCWD, P.report, O_WRONLY | O_APPEND | O_CREAT, 0644);
+    if (fd < 0) return;
+    syscall(SYS_write, fd, kind, strlen(kind));
+    syscall(SYS_write, fd, "\n", 1);
+    syscall(SYS_close, fd);
+}
+
+static int under_root_path(const char *path) {
+    if (!path) return 0;
+    if (path[0] != '/') {
+        /* relative: the child's cwd is the scratch tree itself or a directory inside it */
+        char cwd[600];
+        long n = syscall(SYS_getcwd, cwd, sizeof cwd);
+        if (n <= 0) return 0;
+        size_t l = strlen(cwd);
+        if (l + 1 < sizeof cwd) { cwd[l] = '/'; cwd[l + 1] = 0; }
+        return !strncmp(cwd, P.root, P.rootlen);
+    }
+    return !strncmp(path, P.root, P.rootlen);
+}
+
+static int under_root_fd(int fd) {
+    char link[64], path[600];
+    snprintf(link, sizeof link, "/proc/self/fd/%d", fd);
+    long n = syscall(SYS_readlinkat, AT_FDCWD, link, path, sizeof path - 1);
+    if (n <= 0) return 0;
+    path[n] = 0;
+    return !strncmp(path, P.root, P.rootlen);
+}
+
+ssize_t write(int fd, const void *buf, size_t n) {
+    plan_init();
+    if (!P.active || fd == 2 || n == 0 || !(fd == 1 || under_root_fd(fd))) return syscall(SYS_write, fd, buf, n);
+    P.rw_calls++;
+    if (P.eintr >= 2 && P.rw_calls % P.eintr == 0) {
+        fired(0, "eintr");
+        errno = EINTR;
+        return -1;
+    }
+    if (P.enospc_after >= 0) {
+        if (P.wbytes >= P.enospc_after) {
+            fired(1, "enospc");
+            errno = ENOSPC;
+            return -1;
+        }
+        if ((long)n > P.enospc_after - P.wbytes) n = (size_t)(P.enospc_after - P.wbytes);
+    }
+    if (P.short_write >= 1 && (long)n > P.short_write) {
+        fired(2, "short_write");
+        n = (size_t)P.short_write;
+    }
+    long r = syscall(SYS_write, fd, buf, n);
+    if (r > 0) P.wbytes += r;
+    return r;
+}
+
+ssize_t read(int fd, void *buf, size_t n) {
+    plan_init();
+    if (!P.active || n == 0 || fd <= 2 || !under_root_fd(fd)) return syscall(SYS_read, fd, buf, n);
+    P.rw_calls++;
+    P.reads++;
+    if (P.eio_read >= 1 && P.reads >= P.eio_read) {
+        fired(3, "eio_read");
+        errno = EIO;
+        return -1;
+    }
+    if (P.eintr >= 2 && P.rw_calls % P.eintr == 0) {
+        fired(0, "eintr");
+        errno = EINTR;
+        return -1;
+    }
+    if (P.short_read >= 1 && (long)n > P.short_read) {
+        fired(4, "short_read");
+        n = (size_t)P.short_read;
+    }
+    return syscall(SYS_read, fd, buf, n);
+}
+
+static int open_hook(const char *path, int flags) {
+    plan_init();
+    if (!P.active || P.open_fail < 1) return 0;
+    if ((flags & O_ACCMODE) != O_RDONLY || (flags & O_DIRECTORY)) return 0;
+    if (!under_root_path(path)) return 0;
+    P.opens++;
+    if (P.opens == P.open_fail) {
+        fired(5, "open_fail");
+        errno = EACCES;
+        return 1;
+    }
+    return 0;
+}
+
+int open64(const char *path, int flags, ...) {
+    mode_t mode = 0;
+    if (flags & (O_CREAT | O_TMPFILE)) {
+        va_list ap;
+        va_start(ap, flags);
+        mode = va_arg(ap, mode_t);
+        va_end(ap);
+    }
+    if (open_hook(path, flags)) return -1;
+    return (int)syscall(SYS_openat, AT_FDCWD, path, flags | O_LARGEFILE, mode);
+}
+
+int open(const char *path, int flags, ...) {
+    mode_t mode = 0;
+    if (flags & (O_CREAT | O_TMPFILE)) {
+        va_list ap;
+        va_start(ap, flags);
+        mode = va_arg(ap, mode_t);
+        va_end(ap);
+    }
+    if (open_hook(path, flags)) return -1;
+    return (int)syscall(SYS_openat, AT_FDCWD, path, flags, mode);
 }
